@@ -327,9 +327,21 @@ func (s *Session) Model(pc []*Term, extra *Term, vars []*Term) (Result, map[stri
 	vals := map[string]string{}
 	if res == Sat && len(vars) > 0 {
 		var names []string
+		alias := map[string]string{}
 		for _, v := range vars {
-			names = append(names, s.ref(v))
+			r := s.ref(v)
+			names = append(names, r)
+			if v.Op == OpApp && v.Name == "uf_lower" && len(v.Args) == 1 && v.Args[0].Op == OpVar {
+				alias[r] = "lower(" + v.Args[0].Name + ")"
+			}
 		}
+		defer func() {
+			for r, a := range alias {
+				if x, ok := vals[r]; ok {
+					vals[a] = x
+				}
+			}
+		}()
 		// chunk to keep lines reasonable
 		for i := 0; i < len(names); i += 50 {
 			j := i + 50
